@@ -866,8 +866,12 @@ func (r *RegisteredDecoys) removeRegistration(index string) *regExpireLogMsg {
 func (r *RegisteredDecoys) removeOldRegistrations(logger *log.Logger) (int, int) {
 	var expiredRegTimeoutIndices = r.getExpiredRegistrations()
 
+	r.m.RLock()
+	timeouts := len(r.decoysTimeouts)
+	r.m.RUnlock()
+
 	logger.Debugf("cleansing registrations - registrations: %d, timeouts: %d, expired: %d",
-		r.TotalRegistrations(), len(r.decoysTimeouts), len(expiredRegTimeoutIndices))
+		r.TotalRegistrations(), timeouts, len(expiredRegTimeoutIndices))
 
 	expiredValid := 0
 	for _, idx := range expiredRegTimeoutIndices {
